@@ -374,7 +374,7 @@ void bn_mod_pmers(bn_t c, const bn_t a, const bn_t m, const bn_t u) {
 			bn_sub(c, c, m);
 		}
 
-		if (neg) {
+		if (neg && !bn_is_zero(c)) {
 			bn_sub(c, m, c);
 		}
 	}
